@@ -71,7 +71,13 @@ func (e *Engine) relHavocLoop(st *State, fr *Frame, li *loopInfo) {
 		st.sliceHeap[k] = e.ctx.Const(fmt.Sprintf("rel_L%d_%s", li.ord, k), st.sliceHeap[k].Sort)
 	}
 	st.next = e.ctx.Const(fmt.Sprintf("rel_L%d_next", li.ord), SInt)
-	for name, l := range st.logs {
+	var lnames []string
+	for name := range st.logs {
+		lnames = append(lnames, name)
+	}
+	sort.Strings(lnames)
+	for _, name := range lnames {
+		l := st.logs[name]
 		nl := &CallLog{Len: e.ctx.Const(fmt.Sprintf("rel_L%d_loglen_%s", li.ord, name), SInt), ArgT: l.ArgT}
 		for ai, arrs := range l.Args {
 			var na []Term
